@@ -462,6 +462,20 @@ def run_cell(case):
 # ----------------------------------------------------------------------------------------------------------------
 # stream 2: stand-alone managers, random life cycles and request sequences
 # ----------------------------------------------------------------------------------------------------------------
+def shrink_lc(case):
+    """Smaller variants of a life-cycle case: drop one request, drop the last phase, drop one state of a phase."""
+    import copy
+    for key in list(case):
+        v = case[key]
+        if isinstance(v, list):
+            for i in range(len(v)):
+                c = copy.deepcopy(case); del c[key][i]; yield c
+            for i, item in enumerate(v):           # phases are [name, states, loop]
+                if isinstance(item, list) and len(item) == 3 and isinstance(item[1], list):
+                    for j in range(len(item[1])):
+                        c = copy.deepcopy(case); del c[key][i][1][j]; yield c
+
+
 def gen_lc(rng: random.Random):
     pool = [f"s{i}" for i in range(1, 14)]
     pnames = [f"p{i}" for i in range(1, 7)]
@@ -586,5 +600,5 @@ def streams(tier):
                check="(check_cell engine_lc)", gen=None, run=run_cell, exhaustive=all_cells,
                doc="every life-cycle state x every context method, on real contexts"),
         Stream(name="lc", imports="From Viv Require Import Common Lifecycle.", check="check_lc", gen=gen_lc, run=run_lc,
-               n_quick=300, n_thorough=6000),
+               n_quick=300, n_thorough=6000, shrink=shrink_lc),
     ]
